@@ -48,7 +48,8 @@ type Event struct {
 
 	// observations
 	Motion    bool
-	Heard     bool // the processor announced motion to its listener (Motion is the detector's verdict where a world computes it)
+	Truth     bool // verdict of an independent detector instance fed the same accepted frames (HasTruth); Motion is what the processor announced to its listener
+	HasTruth  bool
 	Started   bool
 	Ended     bool
 	ErrKind   byte // 0 none, 'b' *lepton3.BadFrameErr, 'e' other error
